@@ -1,7 +1,7 @@
 (* C26 -- property theorems only.  Each closed by [exact]; Print Assumptions beneath. *)
 From Coq Require Import List ZArith Bool Arith.
 Import ListNotations.
-Require Import V.C26.Model V.C26.Proofs V.C26.Pending V.C26.Reaccept V.gen.C26_Flags.
+Require Import V.C26.Model V.C26.Proofs V.C26.Pending V.C26.Reaccept V.C26.Released V.gen.C26_Flags.
 
 (* For the plain and the TLS server, over EVERY history of service calls (any batch of accepted
    peers incl. repeated addresses, any handshake outcomes), shutdownIx / closeIx / closeAllIx /
@@ -27,7 +27,12 @@ Print Assumptions table_functional_no_orphans_as_built.
    incl. failing handshakes, plain and TLS: every entry of the pending table is alive (its socket
    is open), no incomer sits in two table slots, no service call ever dies on a dead pending
    entry; and in mode CleanContinue no handshake error ever leaves serviceConnects.
-   (For NoCleanup this is FALSE: Example failed_handshake_wedges_uncleaned_server.) *)
+   (For NoCleanup this is FALSE: Example reset_peer_is_still_closed_on_removal :
+  let s := run false CleanContinue [ServiceConnects [7; 8]%Z []; PeerReset 7%Z; ShutdownIx 7%Z;
+                                    RemoveIx 7%Z true; PeerReset 8%Z; ServiceConnects [8]%Z []] in
+  sock_states s = [Closed; Dead; Open] /\ released s = [0].
+Proof. vm_compute. split; reflexivity. Qed.
+Example failed_handshake_wedges_uncleaned_server.) *)
 Theorem pending_entries_are_live : forall tls m ops, cleaning m = true ->
   pending_live (run tls m ops) /\ ids_distinct (run tls m ops) /\ wedged (run tls m ops) = 0 /\
   (m = CleanContinue -> hraised (run tls m ops) = 0).
@@ -87,6 +92,15 @@ Theorem reaccept_tls_any_pending : forall cleans s ca old hs,
   lookup ca (ixes s') = Some old \/ (lookup ca (ixes s') = Some (next s) /\ sk s' old <> Open).
 Proof. exact reaccept_tls_general. Qed.
 Print Assumptions reaccept_tls_any_pending.
+
+(* REMOVED ENTRIES ARE CLOSED, whatever shutdown() did.  Over every history (incl. peers resetting
+   their connection, so that the later shutdown() of that socket raises ENOTCONN and has no effect),
+   every handshake outcome and every clean-up mode, plain and TLS: every incomer on which the server
+   called shutclose() -- closeIx, closeAllIx, removeIx(shutclose=True), failed TLS handshake -- has a
+   CLOSED socket: close() is called whether or not shutdown() succeeded. *)
+Theorem removed_entries_are_closed : forall tls m ops, released_closed (run tls m ops).
+Proof. exact released_closed_run. Qed.
+Print Assumptions removed_entries_are_closed.
 
 (* removing an entry closes its socket and deletes exactly that entry *)
 Theorem remove_closes_socket : forall tls cleans s ca i,
